@@ -98,7 +98,7 @@ func C11(tier string) int {
 		return q.EvalBool(syms), nil
 	}
 	alphabet := []string{"a", "n", "t", `\`, `"`, " ", "\n", "\t", "\r", "\f", "é"}
-	allStrings(alphabet, maxLen, func(s string) {
+	checkString := func(s string) {
 		if rep.TooMany() {
 			return
 		}
@@ -144,8 +144,24 @@ func C11(tier string) int {
 				}
 			}
 		}
-		rep.Outcome(fmt.Sprintf("len-%d", len([]rune(s))))
-	})
+		if n := len([]rune(s)); n <= maxLen {
+			rep.Outcome(fmt.Sprintf("len-%d", n))
+		} else {
+			rep.Outcome("long")
+		}
+	}
+	allStrings(alphabet, maxLen, checkString)
+	// long literals: lengths around powers of two, one special character (quote, backslash, line feed, a
+	// multi-byte character) at the start, in the middle and at the end of a run of plain letters
+	for _, n := range []int{7, 8, 9, 15, 16, 17, 31, 32, 33, 63, 64, 65, 255, 256, 257, 1023, 1024, 1025, 4096} {
+		checkString(strings.Repeat("a", n))
+		for _, sp := range []string{`"`, `\`, "\n", "é", `\n`, `\"`} {
+			checkString(sp + strings.Repeat("a", n-1))
+			checkString(strings.Repeat("a", n/2) + sp + strings.Repeat("a", n-n/2-1))
+			checkString(strings.Repeat("a", n-1) + sp)
+			checkString(strings.Repeat("a", n/2) + sp + strings.Repeat("é", n-n/2-1) + sp)
+		}
+	}
 	// all lexer-valid literal bodies
 	seen := map[string]string{}
 	allStrings([]string{"a", "n", "t", "f", `\`, `"`}, maxLen+1, func(body string) {
